@@ -186,7 +186,10 @@ package cache
 //@ extern (*sync.Pool).Put(p, x)
 //@   pure
 
-//@ modset ioState() = rdStream, rdN, rdEOF, hStream, hN, bwN, fsyncN, fcloseN, fclosed
+// icloseN counts Close calls made through the io.Closer interface, iclosed is the value closed last.
+//@ ghost icloseN Int
+//@ ghost iclosed Int
+//@ modset ioState() = rdStream, rdN, rdEOF, hStream, hN, bwN, fsyncN, fcloseN, fclosed, icloseN, iclosed
 
 //@ extern io.ReadFull(r, buf)
 //@   modifies elems(buf)
